@@ -1,6 +1,7 @@
 package main
 
 import (
+	"go/constant"
 	"go/token"
 	"go/types"
 	"sort"
@@ -133,4 +134,97 @@ func (w *World) ConstGlobals() map[*ssa.Global]*ssa.Const {
 		}
 	}
 	return w.constGlobals
+}
+
+// ConstStringSets: package-level variables of a map type with string keys that init fills from a composite literal
+// and that the module afterwards only reads (lookups, len, range): the set of keys is the literal's. E.g. the
+// reserved-word tables of the generators.
+func (w *World) ConstStringSets() map[*ssa.Global][]string {
+	if w.constStringSets != nil {
+		return w.constStringSets
+	}
+	out := map[*ssa.Global][]string{}
+	bad := map[*ssa.Global]bool{}
+	keysOf := map[*ssa.Global][]string{}
+	for _, f := range w.AllFns {
+		if !w.InModule(f) {
+			continue
+		}
+		isInit := f.Name() == "init" && f.Parent() == nil
+		for _, b := range f.Blocks {
+			for _, ins := range b.Instrs {
+				for _, op := range ins.Operands(nil) {
+					g, ok := (*op).(*ssa.Global)
+					if !ok {
+						continue
+					}
+					mt, isMap := under(deref1(g.Type())).(*types.Map)
+					if !isMap {
+						continue
+					}
+					if bk, ok := under(mt.Key()).(*types.Basic); !ok || bk.Info()&types.IsString == 0 {
+						continue
+					}
+					switch x := ins.(type) {
+					case *ssa.UnOp:
+						// a load: the loaded map may only be read
+						if refs := x.Referrers(); refs != nil {
+							for _, r := range *refs {
+								switch y := r.(type) {
+								case *ssa.Lookup, *ssa.Range, *ssa.DebugRef:
+								case *ssa.Call:
+									if bi, ok := y.Call.Value.(*ssa.Builtin); !ok || bi.Name() != "len" {
+										bad[g] = true
+									}
+								default:
+									bad[g] = true
+								}
+							}
+						}
+					case *ssa.Store:
+						mk, ok := x.Val.(*ssa.MakeMap)
+						if x.Addr != ssa.Value(g) || !isInit || !ok || keysOf[g] != nil {
+							bad[g] = true
+							continue
+						}
+						keys := []string{}
+						if refs := mk.Referrers(); refs != nil {
+							for _, r := range *refs {
+								switch y := r.(type) {
+								case *ssa.MapUpdate:
+									c, ok := y.Key.(*ssa.Const)
+									if !ok || c.Value == nil || c.Value.Kind() != constant.String {
+										bad[g] = true
+									} else {
+										keys = append(keys, constant.StringVal(c.Value))
+									}
+								case *ssa.Store, *ssa.DebugRef:
+								default:
+									bad[g] = true
+								}
+							}
+						}
+						keysOf[g] = keys
+					default:
+						bad[g] = true
+					}
+				}
+			}
+		}
+	}
+	for g, ks := range keysOf {
+		if !bad[g] {
+			sort.Strings(ks)
+			out[g] = ks
+		}
+	}
+	w.constStringSets = out
+	return out
+}
+
+func deref1(t types.Type) types.Type {
+	if p, ok := under(t).(*types.Pointer); ok {
+		return p.Elem()
+	}
+	return t
 }
